@@ -234,6 +234,13 @@ def source_consts():
             if 2 <= len(vals) <= 64 and all(v <= 255 for v in vals):
                 b = bytes(vals)
                 if b not in seen: seen.add(b); out.append(b)
+        # wide integer literals (more than 32 bits: a UUID or an ID written as one number), in both byte orders
+        for x in re.findall(r"(?<![\w.])(0x[0-9a-fA-F_]{9,})(?:u64|u128|i64|i128)?(?![\w.])", s):
+            v = int(x.replace("_", ""), 0)
+            n = 8 if v < 2**64 else 16
+            if v < 2**128:
+                for b in (v.to_bytes(n, "big"), v.to_bytes(n, "little")):
+                    if b not in seen: seen.add(b); out.append(b)
     return out
 
 def fuzz_dict():
